@@ -68,6 +68,13 @@ CHECKS["C13"] = dict(
     note="Path model confirmed by gcc for every distinct command; schema-invalid databases are outside the universe.",
 )
 
+CHECKS["C12"] = dict(
+    cat="model_checking", ref="DESIGN.md §3 C12",
+    technique="explicit-state BFS over parse_args call histories on one loaded configuration (state = deep snapshot of the process-wide compiler table, invariant = same answer as on a fresh configuration), plus exhaustive enumeration of alias graphs, rule subsets x command lines against reference semantics, and pinned built-in flag combinations",
+    text="All 216 alias graphs, all subsets of a 6-rule pool x override x implicit-option sets x all command lines of <=2/3 argument groups, every documented flag combination of the four built-in definition files (pinned expectations), the options-appended identity, and every call history of depth <=3/4 are executed on the real config module.",
+    note="Built-in expectations are pinned in cbimc/props/c12.py; per-pass defines / paths compared as multisets.",
+)
+
 PENDING = {}
 
 
